@@ -689,7 +689,7 @@ fn known_alias_cycle(agg: &mut Agg, findings: &[KnownFinding], r: &Run, how: &st
     let fs = crate::exec::final_fs(r);
     match crate::edits::noncontractive_alias_cycle(&fs) {
         Some((file, name)) => {
-            let line = format!("KNOWN-FINDING: property=C04 build {} on a project with the constructor-free type-alias cycle through {}::{} [{}]", how, file, name, k.id);
+            let line = format!("KNOWN-FINDING: property=C04 build {} on a project with the constructor-free type-alias cycle through {}::{} (e.g. run {}) [{}]", how, file, name, r.run_index, k.id);
             agg.kf_lines.entry(k.id.clone()).or_insert((line, 0)).1 += 1;
             *agg.stats.known_findings.entry(k.id.clone()).or_insert(0) += 1;
             agg.results += 1;
